@@ -311,6 +311,14 @@ func seqCase(k *engine.Case, unit bool) {
 			if idx >= 0 {
 				oldSize = m.ents[idx].size
 			}
+			if !unit && idx >= 0 && op != opSetIfAbsent && r.Intn(6) == 0 && m.ents[idx].v != nilVal {
+				// the cached object itself has grown or shrunk and is stored again under its key
+				// (what counts is the size it has at the time of this Set)
+				old := m.ents[idx].v
+				old.sz = v.sz
+				v = old
+				k.Count("lru_same_object_resized_and_set_again", 1)
+			}
 			lenBefore := len(m.ents)
 			var want []*val
 			var existed bool
